@@ -266,6 +266,15 @@ fn get_match_statically_known(
     provider.query_variable = &query_variable;
     provider.query_function = &asm::resolver::get_statically_known_builtin_fn;
 
+    // Arguments are written in the scope of the instruction line,
+    // where the rule's parameters are not visible: they must be
+    // inspected without the parameter names registered below,
+    // otherwise a symbol that happens to be named like an earlier
+    // parameter would be mistaken for that (known) parameter
+    let mut arg_provider = expr::StaticallyKnownProvider::new();
+    arg_provider.query_variable = &query_variable;
+    arg_provider.query_function = &asm::resolver::get_statically_known_builtin_fn;
+
     for i in 0..rule.parameters.len()
     {
         let param = &rule.parameters[i];
@@ -280,7 +289,7 @@ fn get_match_statically_known(
             {
                 if let InstructionArgumentKind::Expr(ref arg_expr) = arg.kind
                 {
-                    if arg_expr.is_value_statically_known(&provider)
+                    if arg_expr.is_value_statically_known(&arg_provider)
                     {
                         provider.locals.insert(
                             param.name.clone(),
